@@ -87,4 +87,4 @@ class LinearCompositeFunction(MDOFunction):
         Returns:
             The evaluation of the function at x_vect.
         """
-        return self._matrix.T.dot(self._function.jac(self._matrix.dot(x_vect)))
+        return self._function.jac(self._matrix.dot(x_vect)) @ self._matrix
